@@ -33,8 +33,11 @@
    their names; AnonType_<n>__ is anon_base + n).  A type member is (name, payload): payload = declaring application for a
    declared type, the transform's own number for an inferred one - what tells two outcomes apart.  Go's iteration orders are
    parameters: ordA for mod.Apps, ordV (per application) for its Views.
+   SECOND PASS: the ErrRedefined message a skipped `let` appends to p.Messages (p_msgs); Parser.Parse with or without the reset
+   of the accumulators and the life of one Parser value over several calls, also interleaved (parse, run_sched); fixParamTypeRef
+   and fixTypeRefScope for references `<A>.<B>` inside the round of an application (fix_ref, p_local).
    NOT modelled: duplicate assignment names inside one transform, lets nested inside nested transforms (own scope keys),
-   fixTypeRefScope, collectorPubSubCalls, renestTypes (see notes/C07.md). *)
+   p.AssignTypes, references with other shapes, collectorPubSubCalls, renestTypes (see notes/C07.md). *)
 From Coq Require Import List NArith Bool.
 Import ListNotations.
 Require Import Verif.Conc.Post.
@@ -46,14 +49,22 @@ Definition anon_base : N := 1000.
    are the untyped nested transforms under it in the order inferExprType reaches them *)
 Definition vstmt := (option N * list N)%type.
 Record vrec := { v_name : N; v_id : N; v_abs : bool; v_stmts : list vstmt }.
-Record iapp := { i_name : N; i_mem : list (N * N); i_views : list vrec; i_mix : list N }.
+(* (second pass) a type reference written `<A>.<B>` - ONE application part, then a type -, the only kind fixTypeRefScope can
+   rewrite: r_field = Some t: the type of a field of the declared type t of this application (the reference object travels
+   with the type object to every application that mixes t in); None: the type of an endpoint parameter (fixParamTypeRef) *)
+Record rref := { r_id : N; r_field : option N; r_app : N; r_type : N }.
+Record iapp := { i_name : N; i_mem : list (N * N); i_views : list vrec; i_mix : list N; i_refs : list rref }.
 Definition imodule := list iapp.
 
 Record flags := { f_sorted_apps : bool; f_sorted_views : bool; f_per_app : bool }.
 
 Record pstate := { p_mod : imodule;
                    p_typed : list (N * (N * N));   (* transform |-> (anonymous type name, application that inferred it) *)
-                   p_lets : list N }.              (* p.LetTypes: scope keys seen by this parse.Parser *)
+                   p_lets : list N;                (* p.LetTypes: scope keys seen by this parse.Parser *)
+                   p_msgs : list (N * N);          (* p.Messages: (view name, scope key) of every `let` that was skipped, in
+                                                      the order the messages were appended (second pass) *)
+                   p_local : list N }.             (* the references fixTypeRefScope has rewritten to local deep references
+                                                      (`ref.Appname = nil; ref.Path = [A, B]`), as a sorted set of r_id *)
 
 Fixpoint ilookup (m:imodule) (n:N) : option iapp :=
   match m with
@@ -78,7 +89,7 @@ Definition imix_one (m:imodule) (a:iapp) (src:N) : iapp :=
   match ilookup m src with
   | None => a
   | Some s => {| i_name := i_name a; i_mem := add_missing (i_mem a) (i_mem s);
-                 i_views := add_missing_views (i_views a) (i_views s); i_mix := i_mix a |}
+                 i_views := add_missing_views (i_views a) (i_views s); i_mix := i_mix a; i_refs := i_refs a |}
   end.
 
 (* m[k] = v *)
@@ -92,27 +103,30 @@ Definition is_typed (p:N) (t:list (N * (N * N))) : bool := existsb (fun e => N.e
 Definition mem_N (k:N) (l:list N) : bool := existsb (N.eqb k) l.
 
 (* what inference threads through one application: counter, the application's types, typed transforms, let keys *)
-Record acc := { c_cnt : N; c_mem : list (N * N); c_typed : list (N * (N * N)); c_lets : list N }.
+Record acc := { c_cnt : N; c_mem : list (N * N); c_typed : list (N * (N * N)); c_lets : list N; c_msgs : list (N * N) }.
 
 (* `if !top && expr.Type == nil { anonCount = inferAnonymousType(...) }` *)
 Definition anon_step (app:N) (a:acc) (p:N) : acc :=
   if is_typed p (c_typed a) then a
   else {| c_cnt := c_cnt a + 1; c_mem := set_mem (c_mem a) (anon_base + c_cnt a) p;
-          c_typed := c_typed a ++ [(p, (anon_base + c_cnt a, app))]; c_lets := c_lets a |}.
+          c_typed := c_typed a ++ [(p, (anon_base + c_cnt a, app))]; c_lets := c_lets a; c_msgs := c_msgs a |}.
 
-Definition stmt_step (app:N) (a:acc) (s:vstmt) : acc :=
+(* vn = the view's name: a `let` whose key is there already only appends ErrRedefined to p.Messages[viewName] *)
+Definition stmt_step (app vn:N) (a:acc) (s:vstmt) : acc :=
   match s with
   | (None, ps) => fold_left (anon_step app) ps a
   | (Some k, ps) =>
-      if mem_N k (c_lets a) then a
+      if mem_N k (c_lets a)
+      then {| c_cnt := c_cnt a; c_mem := c_mem a; c_typed := c_typed a; c_lets := c_lets a; c_msgs := c_msgs a ++ [(vn, k)] |}
       else let a' := fold_left (anon_step app) ps a in
-           {| c_cnt := c_cnt a'; c_mem := c_mem a'; c_typed := c_typed a'; c_lets := c_lets a' ++ [k] |}
+           {| c_cnt := c_cnt a'; c_mem := c_mem a'; c_typed := c_typed a'; c_lets := c_lets a' ++ [k]; c_msgs := c_msgs a' |}
   end.
 
 Definition view_step (per_app:bool) (app:N) (a:acc) (v:vrec) : acc :=
   if v_abs v then a
-  else let a0 := {| c_cnt := if per_app then c_cnt a else 0; c_mem := c_mem a; c_typed := c_typed a; c_lets := c_lets a |} in
-       fold_left (stmt_step app) (v_stmts v) a0.
+  else let a0 := {| c_cnt := if per_app then c_cnt a else 0; c_mem := c_mem a; c_typed := c_typed a; c_lets := c_lets a;
+                     c_msgs := c_msgs a |} in
+       fold_left (stmt_step app (v_name v)) (v_stmts v) a0.
 
 Fixpoint find_view (l:list vrec) (n:N) : option vrec :=
   match l with
@@ -130,33 +144,113 @@ Definition infer_app (fl:flags) (ordV:N -> list N -> list N) (st:pstate) (a:iapp
                             | Some v => view_step (f_per_app fl) (i_name a) acc0 v
                             | None => acc0
                             end in
-  let r := fold_left step order {| c_cnt := 0; c_mem := i_mem a; c_typed := p_typed st; c_lets := p_lets st |} in
-  {| p_mod := iupdate (p_mod st) {| i_name := i_name a; i_mem := c_mem r; i_views := i_views a; i_mix := i_mix a |};
-     p_typed := c_typed r; p_lets := c_lets r |}.
+  let r := fold_left step order {| c_cnt := 0; c_mem := i_mem a; c_typed := p_typed st; c_lets := p_lets st; c_msgs := p_msgs st |} in
+  {| p_mod := iupdate (p_mod st) {| i_name := i_name a; i_mem := c_mem r; i_views := i_views a; i_mix := i_mix a; i_refs := i_refs a |};
+     p_typed := c_typed r; p_lets := c_lets r; p_msgs := c_msgs r; p_local := p_local st |}.
 
-(* one round of the application loop *)
+(* (second pass) fixTypeRefScope(mod, currApp, ref) on a reference <A>.<B>:
+     len(appPath) == 0            -> return     the reference was made local before (it is a shared object)
+     currApp == A                 -> return
+     mod.Apps[A].Types[B] exists  -> return     full reference - looked up in the module AS IT IS NOW: A may get B by a mixin
+                                                 in a LATER round of the loop
+     mod.Apps[currApp].Types[A]   -> ref.Appname = nil; ref.Path = [A, B]      a local deep reference
+   The set of rewritten references is kept sorted, so the order in which one application's types and fields are ranged over
+   (two map ranges whose bodies touch one reference object each) does not show. *)
+Definition has_mem (k:N) (l:list (N * N)) : bool := existsb (fun e => N.eqb (fst e) k) l.
+Fixpoint set_add (x:N) (l:list N) : list N :=
+  match l with
+  | [] => [x]
+  | y :: l' => if N.eqb x y then l else if N.ltb x y then x :: l else y :: set_add x l'
+  end.
+Definition fix_ref (m:imodule) (c:iapp) (loc:list N) (r:rref) : list N :=
+  if mem_N (r_id r) loc then loc
+  else if N.eqb (r_app r) (i_name c) then loc
+  else if match ilookup m (r_app r) with Some a => has_mem (r_type r) (i_mem a) | None => false end then loc
+  else if has_mem (r_app r) (i_mem c) then set_add (r_id r) loc
+  else loc.
+Definition is_param (r:rref) : bool := match r_field r with None => true | Some _ => false end.
+Definition is_field_of (t:N) (r:rref) : bool := match r_field r with Some t' => N.eqb t t' | None => false end.
+(* the references inside the type objects application c holds: a member (t, d) is the type t declared by application d *)
+Definition field_refs (m:imodule) (c:iapp) : list rref :=
+  flat_map (fun e => match ilookup m (snd e) with
+                     | Some d => filter (is_field_of (fst e)) (i_refs d)
+                     | None => []
+                     end) (i_mem c).
+
+(* one round of the application loop: fixParamTypeRef, the mixins, the type references of the fields, inferTypes *)
 Definition app_step (fl:flags) (ordV:N -> list N -> list N) (st:pstate) (n:N) : pstate :=
   match ilookup (p_mod st) n with
   | None => st
   | Some a =>
+      let loc1 := fold_left (fix_ref (p_mod st) a) (filter is_param (i_refs a)) (p_local st) in
       let a1 := fold_left (imix_one (p_mod st)) (i_mix a) a in
-      infer_app fl ordV {| p_mod := iupdate (p_mod st) a1; p_typed := p_typed st; p_lets := p_lets st |} a1
+      let m1 := iupdate (p_mod st) a1 in
+      let loc2 := fold_left (fix_ref m1 a1) (field_refs m1 a1) loc1 in
+      infer_app fl ordV {| p_mod := m1; p_typed := p_typed st; p_lets := p_lets st; p_msgs := p_msgs st; p_local := loc2 |} a1
   end.
 
 Definition inames (m:imodule) : list N := map i_name m.
 Definition app_order (sorted:bool) (ordA:list N -> list N) (m:imodule) : list N :=
   if sorted then isort (ordA (inames m)) else ordA (inames m).
 
-(* postProcess of a freshly built module by a parser whose LetTypes hold `lets0` ([] for parse.NewParser()) *)
+(* postProcess of a freshly built module by a parser whose LetTypes hold `lets0` and whose Messages hold `msgs0` (both [] for
+   parse.NewParser()); pp is the form of round 3 (no messages so far) *)
+Definition pp_from (fl:flags) (ordA:list N -> list N) (ordV:N -> list N -> list N) (lets0:list N) (msgs0:list (N * N))
+  (m:imodule) : pstate :=
+  fold_left (app_step fl ordV) (app_order (f_sorted_apps fl) ordA m) {| p_mod := m; p_typed := []; p_lets := lets0; p_msgs := msgs0; p_local := [] |}.
 Definition pp (fl:flags) (ordA:list N -> list N) (ordV:N -> list N -> list N) (lets0:list N) (m:imodule) : pstate :=
-  fold_left (app_step fl ordV) (app_order (f_sorted_apps fl) ordA m) {| p_mod := m; p_typed := []; p_lets := lets0 |}.
+  pp_from fl ordA ordV lets0 [] m.
 
 (* a compilation with a parser of its own / the second of two compilations of the same source made with ONE parser value *)
 Definition compile_fresh fl ordA ordV m : pstate := pp fl ordA ordV [] m.
 Definition compile_again fl ordA ordV m : pstate := pp fl ordA ordV (p_lets (pp fl ordA ordV [] m)) m.
 
+(* ---------- (second pass) Parser.Parse and the life of one parse.Parser value ----------
+   What a Parser keeps between two calls of Parse - of what the model knows - are the keys of LetTypes and the Messages.
+
+     func (p *Parser) Parse(resource, reader) {
+       p.AssignTypes = map[...]{} ; p.LetTypes = map[...]{} ; p.Messages = map[...]{}     EReset  (only if `resets`:
+         (each under `if p.F == nil || len(p.F) > 0`: an empty map is as good as a new one)  Gen.ConcShape.parse_reset_fields)
+       listener := NewTreeShapeListener() ; ... collectSpecs (the READS) ...
+       return p.parseSpecs(specs, listener)      // tree walks, then finishModule -> postProcess          EPost
+     }
+
+   Between EReset and EPost of one call the reads of the files happen; a Parser that several goroutines use AT ONCE can
+   therefore see the two events of one call apart (the harness forces that with a gate reader).  A schedule is a list of
+   events tagged with the call they belong to; `mods g` is the module call g builds. *)
+Record parser := { ps_lets : list N; ps_msgs : list (N * N) }.
+Definition new_parser : parser := {| ps_lets := []; ps_msgs := [] |}.
+Definition parser_after (st:pstate) : parser := {| ps_lets := p_lets st; ps_msgs := p_msgs st |}.
+
+Inductive pev := EReset (g:N) | EPost (g:N).
+
+Definition ev_step (resets:bool) fl ordA ordV (mods:N -> imodule) (s:parser * list (N * pstate)) (e:pev)
+  : parser * list (N * pstate) :=
+  match e with
+  | EReset _ => (if resets then new_parser else fst s, snd s)
+  | EPost g => let st := pp_from fl ordA ordV (ps_lets (fst s)) (ps_msgs (fst s)) (mods g) in
+               (parser_after st, snd s ++ [(g, st)])
+  end.
+
+(* the parser afterwards and, per EPost in schedule order, what that call returned and left in the parser *)
+Definition run_sched resets fl ordA ordV mods (ps:parser) (sched:list pev) : parser * list (N * pstate) :=
+  fold_left (ev_step resets fl ordA ordV mods) sched (ps, []).
+
+(* calls made one after another: every EReset g is followed at once by EPost g *)
+Fixpoint sequential (sched:list pev) : bool :=
+  match sched with
+  | [] => true
+  | EReset g :: EPost g' :: rest => N.eqb g g' && sequential rest
+  | _ => false
+  end.
+Definition seq_sched (gs:list N) : list pev := flat_map (fun g => [EReset g; EPost g]) gs.
+
+(* one call of Parse on a parser in state ps *)
+Definition parse (resets:bool) fl ordA ordV (ps:parser) (m:imodule) : pstate :=
+  let ps0 := if resets then new_parser else ps in pp_from fl ordA ordV (ps_lets ps0) (ps_msgs ps0) m.
+
 (* the mixin-only module of Conc/Post.v inside this one (no views) *)
 Definition embed (m:module) : imodule :=
-  map (fun a => {| i_name := a_name a; i_mem := a_mem a; i_views := []; i_mix := a_mix a |}) m.
+  map (fun a => {| i_name := a_name a; i_mem := a_mem a; i_views := []; i_mix := a_mix a; i_refs := [] |}) m.
 Definition project (m:imodule) : module :=
   map (fun a => {| a_name := i_name a; a_mem := i_mem a; a_mix := i_mix a |}) m.
